@@ -328,14 +328,48 @@ fn loop_batch(rng: &mut Rng) -> BatchMode {
     }
 }
 
+/// Small loop workload for the sanitizer builds (Miri: local configurations only; TSan: also
+/// multi-host in one process). Selected with `--sub sanitizer-local` / `--sub sanitizer-all`.
+fn sanitizer_case(rng: &mut Rng, local_only: bool) -> (LoopCase, Layout, Policy) {
+    let mut c = gen_loop_case(rng, false);
+    c.n = c.n.min(10);
+    c.rounds = c.rounds.clamp(2, 3);
+    c.body.retain(|b| !matches!(b, BodyOp::Work(_) | BodyOp::Nested { .. }));
+    if c.body.is_empty() {
+        c.body.push(BodyOp::AddState);
+    }
+    if !c.body.contains(&BodyOp::Shuffle) {
+        c.body.push(BodyOp::Shuffle);
+        c.body.push(BodyOp::AddState);
+    }
+    let layout = if local_only {
+        rng.pick(&[Layout::Local(2), Layout::Local(3)]).clone()
+    } else {
+        rng.pick(&[Layout::Local(2), Layout::Local(4), Layout::Remote(vec![1, 1]), Layout::Remote(vec![2, 1])]).clone()
+    };
+    (c, layout, Policy::none())
+}
+
 pub fn run_c10(args: &Args, report: &mut Report) {
     let rng = Rng::new(args.seed).fork(0xC10).fork(args.shard);
-    let cases = if args.thorough { 260 } else { 26 };
+    let sanitizer = args.sub.as_deref().and_then(|s| s.strip_prefix("sanitizer-")).map(|s| s == "local");
+    let cases = match sanitizer {
+        Some(true) => 3,
+        Some(false) => 24,
+        None if args.thorough => 260,
+        None => 26,
+    };
     for case in 0..cases {
         let mut crng = rng.fork(case);
-        let c = gen_loop_case(&mut crng, args.thorough);
-        let layout = loop_layout(&mut crng);
-        let policy = loop_policy(&mut crng);
+        let (c, layout, policy) = match sanitizer {
+            Some(local_only) => sanitizer_case(&mut crng, local_only),
+            None => {
+                let c = gen_loop_case(&mut crng, args.thorough);
+                let layout = loop_layout(&mut crng);
+                let policy = loop_policy(&mut crng);
+                (c, layout, policy)
+            }
+        };
         let pname = policy.name.clone();
         let batch = loop_batch(&mut crng);
         let input: Vec<TRec> = (0..c.n as u64)
